@@ -13,6 +13,8 @@ use pv::{
 };
 use std::path::Path;
 
+pub static FSCK_AFTER_RECOVERY: std::sync::atomic::AtomicBool = std::sync::atomic::AtomicBool::new(false);
+
 pub struct Verdict {
 	pub m: Option<usize>,
 	pub evals: u64,
@@ -298,6 +300,14 @@ pub fn eval_image(img: &Path, rec: &Recorded, lo: usize, hi: usize, rng: &mut Rn
 				match catch(|| Db::open(&opts)) {
 					Ok(Ok(d2)) => {
 						let d2 = dbutil::Handle::new(d2);
+						if FSCK_AFTER_RECOVERY.load(std::sync::atomic::Ordering::Relaxed) {
+							crate::child::phase("fsck after recovery + continuation");
+							let _ = dbutil::drain(&d2);
+							match fsck_state(&d2, img, rec, &st) {
+								Ok(n) => evals += n,
+								Err((sig, detail)) => return Verdict { m: Some(m), evals, fail: Some((sig, detail)) },
+							}
+						}
 						match catch(|| deep_match(&d2, rec, &st)) {
 							Ok(Ok(n)) => evals += n,
 							Ok(Err(e)) => return Verdict { m: Some(m), evals, fail: Some(("failure=continuation_diverged".into(), format!("after recovery to prefix {}, a continuation and a clean restart: {}", m, e))) },
@@ -364,4 +374,64 @@ fn continuation_run(db: &Db, rec: &Recorded, m: usize, rng: &mut Rng) -> Result<
 	}
 	evals += deep_match(db, rec, &st)?;
 	Ok((evals, st))
+}
+
+/// Structural check of the files of an open, drained database against a state (C14 after recovery).
+pub fn fsck_state(db: &Db, dir: &Path, rec: &Recorded, st: &State) -> Result<u64, (String, String)> {
+	use pvfsck::{ColSpec, Expect};
+	let specs: Vec<ColSpec> = rec
+		.cfg
+		.cols
+		.iter()
+		.map(|c| ColSpec {
+			btree: c.btree_index,
+			multitree: c.multitree,
+			ref_counted: c.ref_counted,
+			preimage: c.preimage,
+			uniform: c.uniform,
+			append_only: c.append_only,
+			compression: match c.compression {
+				parity_db::CompressionType::NoCompression => 0,
+				parity_db::CompressionType::Lz4 => 1,
+				parity_db::CompressionType::Snappy => 2,
+			},
+		})
+		.collect();
+	let mut expect = vec![];
+	for (ci, c) in rec.cfg.cols.iter().enumerate() {
+		let ci8 = ci as u8;
+		if c.multitree {
+			let tm = st.trees.get(&ci8).unwrap();
+			// counted roots: the count is not observable through reads, so the prefix found
+			// may differ in it - structure only
+			if tm.rc_roots || tm.nodes.values().any(|n| n.addr.is_none()) {
+				expect.push(Expect::Unknown);
+				continue
+			}
+			let addr = |id: &u64| tm.addr_of(*id).unwrap();
+			let roots = tm.roots.iter().map(|(k, r)| (db.verif_hash_key(ci8, k), r.data.clone(), r.children.iter().map(addr).collect(), r.count as u32)).collect();
+			let nodes = tm.nodes.iter().map(|(id, n)| (addr(id), n.data.clone(), n.children.iter().map(addr).collect(), n.refs)).collect();
+			expect.push(Expect::Tree { roots, nodes });
+		} else if c.btree_index {
+			if c.ref_counted {
+				// counts of a btree column are not identifiable from reads: structure only
+				expect.push(Expect::Unknown);
+			} else {
+				expect.push(Expect::Btree(st.model.ordered(ci8).into_iter().map(|(k, v)| (k.clone(), v.clone(), 1)).collect()));
+			}
+		} else {
+			let rc = matches!(st.model.cols[ci], ColModel::Rc(_));
+			expect.push(Expect::Hash(st.model.keys(ci8).iter().map(|k| (db.verif_hash_key(ci8, k), st.model.get(ci8, k).unwrap().clone(), if rc { st.model.count(ci8, k) as u32 } else { 1 })).collect()));
+		}
+	}
+	let r = pvfsck::check_dir(dir, &specs, &expect);
+	if r.errors.is_empty() {
+		return Ok(1 + r.stats.get("values_compared").copied().unwrap_or(0))
+	}
+	let class = r.errors[0].split(':').next().unwrap_or("unknown").to_string();
+	let multitree = r.errors[0].contains("multitree") || rec.cfg.cols.iter().any(|c| c.multitree);
+	Err((
+		format!("failure=fsck;class={};has_multitree={}", class, multitree),
+		format!("structural check after recovery failed: {} problem(s): {}", r.errors.len(), r.errors.iter().take(5).cloned().collect::<Vec<_>>().join(" | ")),
+	))
 }
